@@ -7,14 +7,19 @@ ops (macro ops executed by `harness/hcore/src/bin/timers.rs` at quiescent points
   `case <n> [tl]`                 fresh runtime, fresh target (`tl`: a thread-local actor on its own, frozen, thread); clock 0
   `sa <p>` `si <p>` `ea <p>` `ka <p>`   send_after / send_interval / exit_after / kill_after, period p µs
   `dsa <p>` `dsi <p>` `dea <p>` `dka <p>`   the same four through a `DerivedActorRef` (same model steps)
+  `csa <p>` `csi <p>` `cea <p>` `cka <p>`   the free functions `ractor::time::*` called with the target's `ActorCell`
+  `xsa <p>` `xsi <p>`             the free functions send_after / send_interval with a message type that is not the target's
   `adv <d>`                       tokio::time::advance(d µs), run to quiescence   (every time and duration is in µs)
   `advabort <d> <i>`              clock += d, abort timer i before the time driver runs
   `advstop <d>` `advkill <d>` `advdrain <d>`   clock += d, then the API call on the target
   `abort <i>` `stop` `kill` `drain`
   `hold` `psrelease`              gate the target's `post_stop` / open the gate
+  `starthold` (first op of a case) `started`   the target sits in a gated `post_start` (status `Starting`) / the gate opens
+  `fail` `advfail <d>`            cast a message on which the target's handler returns `Err` (the actor FAILS)
+  `drop <i>` `advdrop <d> <i>`    drop the `JoinHandle` of timer i (the task is detached; an `AbortHandle` is kept)
 
 observation after each op (model and implementation, compared verbatim):
-  `t=<now> att=<id.k@t,…|-> hd=<id.k@t,…|-> res=<P|ok|err|cancelled,…|-> tgt=<Running|PostStop@<t>|Stopped:<reason>@<t>>`
+  `t=<now> att=<id.k@t,…|-> hd=<id.k@t,…|-> res=<P|ok|err|cancelled|panic|dP|dF,…|-> tgt=<Running|PostStop@<t>|Stopped:<reason>@<t>>`
   (`PostStop@t`: the message loop ended at `t` and the gated `post_stop` is running)
 -/
 
@@ -27,11 +32,28 @@ structure DState where
   bad : Bool := false
 
 def showRes : Res → String
-  | .pending => "P" | .ok => "ok" | .err => "err" | .cancelled => "cancelled"
+  | .pending => "P" | .ok => "ok" | .err => "err" | .cancelled => "cancelled" | .panicked => "panic"
 
 def parseRes? : String → Option Res
   | "P" => some .pending | "ok" => some .ok | "err" => some .err | "cancelled" => some .cancelled
+  | "panic" => some .panicked
+  | "err:InvalidActorType" => some .err
   | _ => none
+
+/-- what the owner of timer `i`'s handle can read: the task's answer, or — once the `JoinHandle` is
+dropped — only whether the task is still there (`AbortHandle::is_finished`) -/
+inductive HObs | res (r : Res) | dropped (finished : Bool)
+  deriving DecidableEq
+
+def showHObs : HObs → String
+  | .res r => showRes r
+  | .dropped false => "dP"
+  | .dropped true => "dF"
+
+def parseHObs? : String → Option HObs
+  | "dP" => some (.dropped false)
+  | "dF" => some (.dropped true)
+  | w => (parseRes? w).map HObs.res
 
 def showEvs (l : List (Nat × Nat × Nat)) : String :=
   if l.isEmpty then "-" else
@@ -52,7 +74,7 @@ def showTarget (T : Target) : String :=
   match T.exit, T.stopping with
   | some (r, t), _ => s!"Stopped:{r.render}@{t}"
   | none, some (_, ts) => s!"PostStop@{ts}"
-  | none, none => "Running"
+  | none, none => if T.starting then (if T.draining then "Draining" else "Starting") else "Running"
 
 /-- attempts of the sending timers beyond the lengths recorded in `old` -/
 def newAttempts (old new : List Timer) : List (Nat × Nat × Nat) :=
@@ -65,7 +87,11 @@ def newAttempts (old new : List Timer) : List (Nat × Nat × Nat) :=
 def observe (old new : State) : String :=
   let att := newAttempts old.timers new.timers
   let hd := new.target.handled.drop old.target.handled.length
-  let res := if new.timers.isEmpty then "-" else ",".intercalate (new.timers.map (showRes ·.res))
+  let res := if new.timers.isEmpty then "-" else ",".intercalate (new.timers.zipIdx.map fun (τ, i) =>
+    if new.dropped.contains i then showHObs (.dropped (τ.res != .pending))
+    -- the wrong message type: `MessagingErr::InvalidActorType` (not `SendErr`)
+    else if !τ.typed && τ.res == .err then "err:InvalidActorType"
+    else showRes τ.res)
   s!"t={new.now} att={showEvs att} hd={showEvs hd} res={res} tgt={showTarget new.target}"
 
 def parseMOp? (ws : List String) : Option MOp :=
@@ -80,6 +106,14 @@ def parseMOp? (ws : List String) : Option MOp :=
   -- `DerivedActorRef::exit_after / kill_after`: must behave exactly like the two above
   | ["dea", p] => p.toNat?.map (MOp.create .exitAfter)
   | ["dka", p] => p.toNat?.map (MOp.create .killAfter)
+  -- the free functions `ractor::time::*` called directly with an `ActorCell`
+  | ["csa", p] => p.toNat?.map (MOp.create .sendAfter)
+  | ["csi", p] => p.toNat?.map (MOp.create .interval)
+  | ["cea", p] => p.toNat?.map (MOp.create .exitAfter)
+  | ["cka", p] => p.toNat?.map (MOp.create .killAfter)
+  -- ... with a message type that is not the target's
+  | ["xsa", p] => p.toNat?.map (MOp.createX .sendAfter)
+  | ["xsi", p] => p.toNat?.map (MOp.createX .interval)
   | ["adv", d] => d.toNat?.map MOp.adv
   | ["advabort", d, i] => do pure (MOp.advAbort (← d.toNat?) (← i.toNat?))
   | ["advstop", d] => d.toNat?.map MOp.advStop
@@ -87,6 +121,15 @@ def parseMOp? (ws : List String) : Option MOp :=
   | ["advdrain", d] => d.toNat?.map MOp.advDrain
   | ["abort", i] => i.toNat?.map MOp.abort
   | ["stop"] => some .stop | ["kill"] => some .kill | ["drain"] => some .drain
+  | ["drop", i] => i.toNat?.map MOp.dropHandle
+  | ["advdrop", d, i] => do pure (MOp.advDrop (← d.toNat?) (← i.toNat?))
+  | ["starthold"] => some .startHold
+  | ["started"] => some .started
+  | ["fail"] => some .fail
+  | ["advfail", d] => d.toNat?.map MOp.advFail
+  -- the handler PANICS instead of returning `Err`: ractor catches it, the same `ActorFailed`
+  | ["failp"] => some .fail
+  | ["advfailp", d] => d.toNat?.map MOp.advFail
   | ["hold"] => some .hold
   | ["psrelease"] => some .psrelease
   | _ => none
@@ -95,6 +138,7 @@ def parseReason? (s : String) : Option Reason :=
   if s == "manual" then some .manual
   else if s == "Drained" then some .drained
   else if s == "killed" then some .killed
+  else if s == "<failed> poison" then some .failed
   else if s.startsWith "Exit after " && s.endsWith "ms" then
     (((s.drop 11).dropEnd 2).toString.toNat?).map Reason.exitAfter
   else none
@@ -103,7 +147,7 @@ structure ImplObs where
   t : Nat
   att : List (Nat × Nat × Nat)
   hd : List (Nat × Nat × Nat)
-  res : List Res
+  res : List HObs
   exit : Option (Reason × Nat)
   /-- the target reported that its message loop ended at this instant and `post_stop` runs -/
   ps : Option Nat := none
@@ -121,11 +165,11 @@ def parseImpl? (s : String) : Option ImplObs :=
       let att ← parseEvs? (← field? att "att=")
       let hd ← parseEvs? (← field? hd "hd=")
       let res ← field? res "res="
-      let res ← if res == "-" then some [] else (splitOnChar res ',').mapM parseRes?
+      let res ← if res == "-" then some [] else (splitOnChar res ',').mapM parseHObs?
       let ps ← match field? tgt "PostStop@" with
         | some ts => ts.toNat?.map some
         | none => some none
-      let exit ← if tgt == "Running" || ps.isSome then some none else
+      let exit ← if tgt == "Running" || tgt == "Starting" || tgt == "Draining" || ps.isSome then some none else
         match field? tgt "Stopped:" with
         | some rest =>
           match rest.splitOn "@" with
@@ -143,6 +187,7 @@ def absorb (v : State) (mop : MOp) (o : ImplObs) : State × List String := Id.ru
   -- a creation op adds a timer created at the observed clock value
   match mop with
   | .create k p => timers := timers ++ [{ kind := k, period := p, created := o.t, armed := some o.t }]
+  | .createX k p => timers := timers ++ [{ kind := k, period := p, created := o.t, armed := some o.t, typed := false }]
   | _ => pure ()
   -- attempts (message builder calls), in order of k
   let att := o.att.toArray.qsort (fun x y => x.1 < y.1 || (x.1 == y.1 && x.2.1 < y.2.1))
@@ -152,11 +197,36 @@ def absorb (v : State) (mop : MOp) (o : ImplObs) : State × List String := Id.ru
       if k != τ.sentAt.length + 1 then errs := errs ++ [s!"attempt-sequence timer={i} k={k}"]
       timers := timers.set i { τ with sentAt := τ.sentAt ++ [t] }
     | none => errs := errs ++ [s!"attempt-unknown-timer {i}"]
+  -- the instant the target stopped accepting, as far as this observation tells
+  let closeNow : Option Nat := match v.target.closedAt with
+    | some tc => some tc
+    | none => match o.ps, o.exit with
+      | some ts, _ => some ts
+      | none, some (_, te) => some te
+      | none, none => none
+  let aborted : Option Nat := match mop with
+    | .abort i => some i | .advAbort _ i => some i | _ => none
   -- handle results
   if o.res.length != timers.length then errs := errs ++ ["res-length"]
-  for (r, i) in o.res.zipIdx do
+  for (h, i) in o.res.zipIdx do
     match timers[i]? with
     | some τ =>
+      -- a dropped handle tells nothing but "the task is gone": the answer nobody can read any more is
+      -- reconstructed as the one that is consistent with what the message builder / the target saw
+      -- (so the handle clauses of the oracle are vacuous for it, all the others are not)
+      let r : Res := match h with
+        | .res r => r
+        | .dropped false => .pending
+        | .dropped true =>
+          if τ.res != .pending then τ.res
+          else if aborted == some i then .cancelled
+          else if τ.kind == .interval && τ.period == 0 then .panicked
+          else if τ.kind == .sendAfter && !τ.typed then .err
+          else if τ.kind == .sendAfter then
+            (match closeNow, τ.sentAt.getLast? with
+             | some tc, some t => if tc < t then .err else .ok
+             | _, _ => .ok)
+          else .ok
       if τ.res == .pending && r != .pending then
         -- exit_after / kill_after have no message builder: they acted when they finished ok
         let sent := if !τ.kind.sends && r == .ok then τ.sentAt ++ [o.t] else τ.sentAt
@@ -166,9 +236,18 @@ def absorb (v : State) (mop : MOp) (o : ImplObs) : State × List String := Id.ru
   let T := v.target
   let T := match mop with
     | .stop | .advStop _ => { T with manualStop := true }
+    | .fail | .advFail _ => { T with manualFail := true }
+    | .startHold => { T with starting := true }
+    | .started => { T with starting := false }
+    | .drain | .advDrain _ => { T with draining := true }
     | .kill | .advKill _ => { T with manualKill := true }
     | _ => T
   let T := { T with handled := T.handled ++ o.hd }
+  -- `drain()` publishes `Draining` synchronously: a live target stops accepting at the CALL (audit: so that
+  -- `acceptOk` / `closedOk` judge sends made between `drain()` and the drained exit on their own)
+  let T := match mop with
+    | .drain | .advDrain _ => if T.exit.isNone then { T with closedAt := some (T.closedAt.getD o.t) } else T
+    | _ => T
   -- the message loop ended (observed from inside `post_stop`): nothing is accepted from then on
   let T := match o.ps with
     | some ts => { T with closedAt := some (T.closedAt.getD ts) }
@@ -182,7 +261,9 @@ def absorb (v : State) (mop : MOp) (o : ImplObs) : State × List String := Id.ru
       errs := errs ++ ["exit-vanished"]
       pure T
     | none, none => pure T
-  return ({ now := o.t, target := T, timers := timers, visits := v.visits ++ [o.t] }, errs)
+  let dropped := match mop with
+    | .dropHandle i => v.dropped ++ [i] | .advDrop _ i => v.dropped ++ [i] | _ => v.dropped
+  return ({ now := o.t, target := T, timers := timers, visits := v.visits ++ [o.t], dropped := dropped }, errs)
 
 def firstBad (s : State) (f : State → Timer → Bool) : String :=
   match (s.timers.zipIdx.filter fun (τ, _) => !f s τ) with
@@ -204,8 +285,16 @@ def step (st : DState) (op impl : String) : DState × StepOut :=
         let (v', errs) := absorb st.v mop o
         let orc := errs
           ++ (if v'.timers.all (diesOk v') then [] else [s!"C12.dies {firstBad v' diesOk}"])
-          ++ (if ok v' then [] else [s!"C12.ok {firstBad v' timerOk}"])
-          ++ (if okPrompt v' then [] else [s!"C12.okPrompt {firstBad v' timerPromptOk}"])
+          ++ (if ok1 v' then [] else [s!"C12.ok {firstBad v' timerOk}"])
+          -- delivery level: a message (timer id, k) handled twice
+          ++ (if deliveredOk v' then [] else ["C12.delivered handled-twice"])
+          ++ (if sentBeforeCloseOk v' then [] else ["C12.delivered sent-after-close"])
+          ++ (if reasonSrcOk v' then [] else ["C12.reason no-source"])
+          -- a running target has handled every attempt by the quiescent point
+          ++ (if allHandledOk v' then [] else ["C12.delivered attempt-not-handled"])
+          ++ (if okPrompt1 v' then [] else [s!"C12.okPrompt {firstBad v' timerPromptOk}"])
+          -- the positive half: a kill_after / exit_after that has acted and a target that is still there
+          ++ (if v'.timers.all (stopsOk v') then [] else [s!"C12.stops {firstBad v' stopsOk}"])
         let resChanged := (m'.timers.map (·.res)).take st.m.timers.length != st.m.timers.map (·.res)
         let nt := !(newAttempts st.m.timers m'.timers).isEmpty || resChanged
                     || (st.m.target.exit.isNone && m'.target.exit.isSome)
